@@ -98,6 +98,15 @@ POSITIONS = [
     ("assign-two-call", "ivar, ivar = {X}", {"multi"}),
     ("compound-int", "ivar += {X}", {"int"}),
     ("compound-int-mod", "ivar %= {X}", {"int"}),
+    # chains of comparison operators without brackets (round 11: C06-D, the operand type taken once for the whole chain): the language reads
+    # them from the right, `a == b == c` is `a == (b == c)`, so the left operand of the outer comparison meets a bool
+    ("cmp-chain-right", "print(1 == 2 == {X})", set()),
+    ("cmp-chain-left", "print({X} == 1 == 1)", {"bool"}),
+    ("cmp-chain-middle", "print(true == {X} == 2)", {"int"}),
+    ("cmp-chain-string", 'print({X} == "a" != "b")', {"bool"}),
+    ("cmp-chain-ordering", "print({X} < 3 == 1)", set()),
+    ("cmp-chain-condition", "if ivar == 1 == {X} {\n\tprint(1)\n}", set()),
+    ("cmp-chain-three", "bvar = {X} == 2 == 3 == 4", set()),
     ("compound-string", "svar += {X}", {"string"}),
     ("compound-string-minus", "svar -= {X}", set()),
     ("compound-bool", "bvar += {X}", set()),
